@@ -11,46 +11,58 @@ Proof. reflexivity. Qed.
 Lemma deny_by_ip_empty r ip : rules_empty r = true -> deny_by_ip r ip = false.
 Proof. intros H. destruct ip as [ip|]; [|reflexivity]. unfold deny_by_ip. now rewrite H. Qed.
 
-Lemma deny_by_ip_allow r ip :
-  r_allow r <> [] ->
-  deny_by_ip r (Some ip) = negb (existsb (fun b => contains b ip) (r_allow r)).
-Proof. destruct r as [[|a l] d]; cbn [r_allow]; intros H; [congruence | reflexivity]. Qed.
+Lemma deny_by_ip_allow r l ip :
+  r_allow r = Some l ->
+  deny_by_ip r (Some ip) = negb (existsb (fun b => contains b ip) l).
+Proof. destruct r as [a d]; cbn [r_allow]; intros ->; reflexivity. Qed.
 
-Lemma deny_by_ip_deny r ip :
-  r_allow r = [] ->
-  deny_by_ip r (Some ip) = existsb (fun b => contains b ip) (r_deny r).
-Proof. destruct r as [al [|d l]]; cbn [r_allow]; intros ->; reflexivity. Qed.
+Lemma deny_by_ip_deny r l ip :
+  r_allow r = None -> r_deny r = Some l ->
+  deny_by_ip r (Some ip) = existsb (fun b => contains b ip) l.
+Proof. destruct r as [a d]; cbn [r_allow r_deny]; intros -> ->; reflexivity. Qed.
+
+Lemma deny_by_ip_no_rules r ip : r_allow r = None -> r_deny r = None -> deny_by_ip r ip = false.
+Proof. destruct r as [a d]; cbn [r_allow r_deny]; intros -> ->. now destruct ip. Qed.
 
 (* An allow list admits only addresses inside one of its blocks ... *)
-Theorem allow_only_inside r ip :
-  r_allow r <> [] -> deny_by_ip r (Some ip) = false ->
-  exists b, In b (r_allow r) /\ contains b ip = true.
+Theorem allow_only_inside r l ip :
+  r_allow r = Some l -> deny_by_ip r (Some ip) = false ->
+  exists b, In b l /\ contains b ip = true.
 Proof.
-  intros H D. rewrite deny_by_ip_allow in D by exact H.
+  intros H D. rewrite (deny_by_ip_allow _ _ _ H) in D.
   apply negb_false_iff in D. apply existsb_exists in D. exact D.
 Qed.
 
 (* ... and admits every such address (whatever the deny list says: allow takes precedence) *)
-Theorem allow_inside_admitted r ip b :
-  In b (r_allow r) -> contains b ip = true -> deny_by_ip r (Some ip) = false.
+Theorem allow_inside_admitted r l ip b :
+  r_allow r = Some l -> In b l -> contains b ip = true -> deny_by_ip r (Some ip) = false.
 Proof.
-  intros Hin Hc. rewrite deny_by_ip_allow.
-  - apply negb_false_iff. apply existsb_exists. now exists b.
-  - intros E. rewrite E in Hin. contradiction.
+  intros H Hin Hc. rewrite (deny_by_ip_allow _ _ _ H).
+  apply negb_false_iff. apply existsb_exists. now exists b.
 Qed.
 
+(* an allow list without blocks (what denyAll installs) admits no address *)
+Theorem empty_allow_denies_all r ip : r_allow r = Some [] -> deny_by_ip r (Some ip) = true.
+Proof. intros H. now rewrite (deny_by_ip_allow _ _ _ H). Qed.
+
 (* A deny list (no allow list) rejects every address inside one of its blocks ... *)
-Theorem deny_inside r ip b :
-  r_allow r = [] -> In b (r_deny r) -> contains b ip = true -> deny_by_ip r (Some ip) = true.
+Theorem deny_inside r l ip b :
+  r_allow r = None -> r_deny r = Some l -> In b l -> contains b ip = true ->
+  deny_by_ip r (Some ip) = true.
 Proof.
-  intros Ha Hin Hc. rewrite deny_by_ip_deny by exact Ha. apply existsb_exists. now exists b.
+  intros Ha Hd Hin Hc. rewrite (deny_by_ip_deny _ _ _ Ha Hd). apply existsb_exists. now exists b.
 Qed.
 
 (* ... and only those *)
 Theorem deny_only_inside r ip :
-  r_allow r = [] -> deny_by_ip r (Some ip) = true ->
-  exists b, In b (r_deny r) /\ contains b ip = true.
-Proof. intros Ha D. rewrite deny_by_ip_deny in D by exact Ha. now apply existsb_exists in D. Qed.
+  r_allow r = None -> deny_by_ip r (Some ip) = true ->
+  exists l b, r_deny r = Some l /\ In b l /\ contains b ip = true.
+Proof.
+  intros Ha D. destruct (r_deny r) as [l|] eqn:Ed.
+  - rewrite (deny_by_ip_deny _ _ _ Ha Ed) in D. apply existsb_exists in D as (b & Hin & Hc).
+    now exists l, b.
+  - rewrite (deny_by_ip_no_rules _ _ Ha Ed) in D. discriminate.
+Qed.
 
 (* ================= AccessDeniedHTTP ================= *)
 Lemma split_byte_nonempty s sep : split_byte s sep <> [].
@@ -234,6 +246,20 @@ Proof.
     + intros [E|(s' & E & _)]; discriminate.
 Qed.
 
+(* Authorized is a function of (scheme name, scheme table, credentials): in a history of
+   requests against one scheme table every answer is the answer the same request gets on its
+   own, whatever was asked before (no login is remembered).  Trivial in the model; the
+   correspondence run ties it to /repo with request histories on one loaded scheme set. *)
+Definition auth_history {creds : Type} (name : str) (schemes : scheme_table creds) (cs : list creds) : list bool :=
+  map (authorized name schemes) cs.
+
+Theorem auth_history_independent (creds : Type) name (schemes : scheme_table creds) pre c post d :
+  nth (List.length pre) (auth_history name schemes (pre ++ c :: post)) d = authorized name schemes c.
+Proof.
+  unfold auth_history. rewrite map_app. cbn [map].
+  rewrite app_nth2; rewrite map_length; [|apply le_n]. now rewrite Nat.sub_diag.
+Qed.
+
 (* ================= the gates ================= *)
 Section Gate.
   Variable parse_ip : str -> option ipaddr.
@@ -286,40 +312,40 @@ Section Gate.
 
   (* end to end, HTTP: a forwarded request on a route with an allow list has its peer and
      every listed XFF element (every field value) inside a block of the list *)
-  Theorem http_upstream_only_if_allowed tg (schemes : scheme_table creds) remote xff c :
+  Theorem http_upstream_only_if_allowed tg l (schemes : scheme_table creds) remote xff c :
     In EUpstream (serve_http parse_ip split_host creds (Some tg) schemes remote xff c) ->
-    r_allow (t_rules tg) <> [] -> parse_ip [] = None ->
+    r_allow (t_rules tg) = Some l -> parse_ip [] = None ->
     exists host, split_host remote = Some host /\
       (forall ip, parse_ip (strip_zone host) = Some ip ->
-                  exists b, In b (r_allow (t_rules tg)) /\ contains b ip = true) /\
+                  exists b, In b l /\ contains b ip = true) /\
       (forall v x ip, In v xff -> In x (split_byte v 44) ->
          parse_ip (strip_zone (trim_space x)) = Some ip ->
-         exists b, In b (r_allow (t_rules tg)) /\ contains b ip = true).
+         exists b, In b l /\ contains b ip = true).
   Proof.
     intros H Ha Hnil. apply gate_before_upstream_http in H as (tg' & E & Hd & _ & host & Hs).
     inversion E; subst tg'. exists host. split; [exact Hs|]. split.
-    - intros ip Hp. apply allow_only_inside; [exact Ha|]. eapply peer_checked; eauto.
-    - intros v x ip Hv Hin Hp. apply allow_only_inside; [exact Ha|].
+    - intros ip Hp. apply (allow_only_inside _ _ _ Ha). eapply peer_checked; eauto.
+    - intros v x ip Hv Hin Hp. apply (allow_only_inside _ _ _ Ha).
       eapply xff_all_checked; eauto.
   Qed.
 
   (* end to end, TCP: a dial on a route with an allow list means the peer is inside *)
-  Theorem tcp_upstream_only_if_allowed tg ip :
+  Theorem tcp_upstream_only_if_allowed tg l ip :
     In EUpstream (serve_tcp (Some tg) (TCPAddr (Some ip))) ->
-    r_allow (t_rules tg) <> [] ->
-    exists b, In b (r_allow (t_rules tg)) /\ contains b ip = true.
+    r_allow (t_rules tg) = Some l ->
+    exists b, In b l /\ contains b ip = true.
   Proof.
     intros H Ha. apply gate_before_upstream_tcp in H as (tg' & E & Hd). inversion E; subst tg'.
-    rewrite tcp_peer_checked in Hd. now apply allow_only_inside.
+    rewrite tcp_peer_checked in Hd. now apply (allow_only_inside _ _ _ Ha).
   Qed.
 
-  Theorem tcp_upstream_only_if_not_denied tg ip b :
+  Theorem tcp_upstream_only_if_not_denied tg l ip b :
     In EUpstream (serve_tcp (Some tg) (TCPAddr (Some ip))) ->
-    r_allow (t_rules tg) = [] -> In b (r_deny (t_rules tg)) -> contains b ip = false.
+    r_allow (t_rules tg) = None -> r_deny (t_rules tg) = Some l -> In b l -> contains b ip = false.
   Proof.
-    intros H Ha Hin. apply gate_before_upstream_tcp in H as (tg' & E & Hd). inversion E; subst tg'.
+    intros H Ha Hdl Hin. apply gate_before_upstream_tcp in H as (tg' & E & Hd). inversion E; subst tg'.
     rewrite tcp_peer_checked in Hd. destruct (contains b ip) eqn:C; [|reflexivity].
-    rewrite (deny_inside _ _ _ Ha Hin C) in Hd. discriminate.
+    rewrite (deny_inside _ _ _ _ Ha Hdl Hin C) in Hd. discriminate.
   Qed.
 End Gate.
 
@@ -356,11 +382,12 @@ Section Parse.
   Notation intended_admits := (intended_admits parse_ip parse_cidr).
   Notation target_rules := (target_rules parse_ip parse_cidr).
   Notation process_access_rules := (process_access_rules parse_ip parse_cidr).
+  Notation rule_well_formed := (rule_well_formed parse_ip parse_cidr).
 
   Definition add_block (k : kind) (r : rules) (n : ipnet) : rules :=
     match k with
-    | KAllow => {| r_allow := r_allow r ++ [n]; r_deny := r_deny r |}
-    | KDeny => {| r_allow := r_allow r; r_deny := r_deny r ++ [n] |}
+    | KAllow => {| r_allow := map_append (r_allow r) n; r_deny := r_deny r |}
+    | KDeny => {| r_allow := r_allow r; r_deny := map_append (r_deny r) n |}
     end.
 
   (* one item: an error exactly when the item denotes no block, else that block is appended
@@ -383,47 +410,53 @@ Section Parse.
     flat_map (fun c => match item_net c with Some n => [n] | None => [] end) items.
   Definition all_ok (items : list str) : bool :=
     forallb (fun c => match item_net c with Some _ => true | None => false end) items.
-
-  Definition add_blocks (k : kind) (r : rules) (l : list ipnet) : rules :=
-    match k with
-    | KAllow => {| r_allow := r_allow r ++ l; r_deny := r_deny r |}
-    | KDeny => {| r_allow := r_allow r; r_deny := r_deny r ++ l |}
+  (* the blocks of the items before the first one that does not parse *)
+  Fixpoint prefix_blocks (items : list str) : list ipnet :=
+    match items with
+    | [] => []
+    | c :: rest => match item_net c with Some n => n :: prefix_blocks rest | None => [] end
     end.
 
-  Lemma add_blocks_cons k r n l : add_blocks k (add_block k r n) l = add_blocks k r (n :: l).
-  Proof. destruct k; unfold add_blocks, add_block; cbn [r_allow r_deny]; now rewrite <- app_assoc. Qed.
+  (* appending several blocks to a map entry: an absent key stays absent when there is none *)
+  Definition map_extend (o : option (list ipnet)) (l : list ipnet) : option (list ipnet) :=
+    match l with
+    | [] => o
+    | _ => Some (match o with Some l0 => l0 ++ l | None => l end)
+    end.
+  Definition add_blocks (k : kind) (r : rules) (l : list ipnet) : rules :=
+    match k with
+    | KAllow => {| r_allow := map_extend (r_allow r) l; r_deny := r_deny r |}
+    | KDeny => {| r_allow := r_allow r; r_deny := map_extend (r_deny r) l |}
+    end.
 
-  Lemma parse_items_all_ok k items r :
-    all_ok items = true -> parse_items k items r = (add_blocks k r (blocks_of items), true).
+  Lemma map_extend_cons o n l : map_extend (map_append o n) l = map_extend o (n :: l).
   Proof.
-    revert r. induction items as [|c rest IH]; intros r H.
-    - cbn. destruct k, r as [ra rd]; unfold add_blocks; cbn [r_allow r_deny]; now rewrite app_nil_r.
-    - cbn [all_ok forallb] in H. apply andb_true_iff in H as [Hc Hr].
-      cbn [Access.parse_items]. rewrite parse_item_spec.
-      unfold blocks_of. cbn [flat_map]. destruct (item_net c) as [n|]; [|discriminate].
-      rewrite (IH _ Hr). fold (blocks_of rest). now rewrite add_blocks_cons.
+    destruct o as [l0|], l as [|x l']; cbn [map_extend map_append]; try reflexivity.
+    - now rewrite <- app_assoc.
   Qed.
+  Lemma add_blocks_cons k r n l : add_blocks k (add_block k r n) l = add_blocks k r (n :: l).
+  Proof. destruct k; unfold add_blocks, add_block; cbn [r_allow r_deny]; now rewrite map_extend_cons. Qed.
+  Lemma add_blocks_nil k r : add_blocks k r [] = r.
+  Proof. destruct k, r as [ra rd]; reflexivity. Qed.
 
-  (* whatever the items, the loop only ever appends blocks of parsable items, in order, and
-     stops at the first bad one: the result is a prefix of the intended blocks *)
-  Lemma parse_items_prefix k items r :
-    exists l, fst (parse_items k items r) = add_blocks k r l /\
-              (forall b, In b l -> In b (blocks_of items)) /\
-              (snd (parse_items k items r) = true -> l = blocks_of items) /\
-              (l = [] -> items <> [] -> match items with c :: _ => item_net c = None | [] => True end).
+  (* the loop of parseAccessRule: blocks of the parsable prefix are appended, an error is
+     returned exactly when some item does not parse *)
+  Lemma parse_items_spec k items r :
+    parse_items k items r = (add_blocks k r (prefix_blocks items), all_ok items).
   Proof.
     revert r. induction items as [|c rest IH]; intros r.
-    - exists []. cbn. repeat split; try tauto.
-      destruct k, r as [ra rd]; unfold add_blocks; cbn [r_allow r_deny]; now rewrite app_nil_r.
-    - cbn [Access.parse_items]. rewrite parse_item_spec. unfold blocks_of. cbn [flat_map].
-      destruct (item_net c) as [n|] eqn:E.
-      + destruct (IH (add_block k r n)) as (l & H1 & H2 & H3 & H4). exists (n :: l).
-        rewrite H1, add_blocks_cons. repeat split.
-        * intros b [->|Hb]; [now left | right; now apply H2].
-        * intros Hok. cbn [app]. f_equal. now apply H3.
-        * discriminate.
-      + exists []. cbn [fst snd]. repeat split; try tauto; try discriminate; try (intros b []).
-        destruct k, r as [ra rd]; unfold add_blocks; cbn [r_allow r_deny]; now rewrite app_nil_r.
+    - cbn. now rewrite add_blocks_nil.
+    - cbn [Access.parse_items prefix_blocks all_ok forallb]. rewrite parse_item_spec.
+      destruct (item_net c) as [n|].
+      + rewrite IH, add_blocks_cons. reflexivity.
+      + now rewrite add_blocks_nil.
+  Qed.
+
+  Lemma prefix_blocks_all_ok items : all_ok items = true -> prefix_blocks items = blocks_of items.
+  Proof.
+    induction items as [|c rest IH]; [reflexivity|]. cbn [all_ok forallb prefix_blocks].
+    unfold blocks_of. cbn [flat_map]. destruct (item_net c); [|discriminate].
+    intros H. cbn [andb] in H. cbn [app]. f_equal. now apply IH.
   Qed.
 
   Lemma blocks_of_nonempty items : items <> [] -> all_ok items = true -> blocks_of items <> [].
@@ -438,62 +471,97 @@ Section Parse.
   Lemma items_ok_eq opt : items_ok parse_ip parse_cidr opt = all_ok (split_byte opt 44).
   Proof. reflexivity. Qed.
 
-  (* ---- on well-formed rule texts the parsed rules are exactly the intended ones ---- *)
-  Theorem well_formed_rules allow_opt deny_opt :
-    rule_well_formed parse_ip parse_cidr allow_opt deny_opt = true ->
-    process_access_rules allow_opt deny_opt =
-      ({| r_allow := if is_nil allow_opt then [] else intended_blocks allow_opt;
-          r_deny := if is_nil deny_opt then [] else intended_blocks deny_opt |}, true).
+  Lemma map_extend_none_ok opt :
+    all_ok (split_byte opt 44) = true ->
+    map_extend None (prefix_blocks (split_byte opt 44)) = Some (intended_blocks opt).
   Proof.
-    unfold rule_well_formed, Access.process_access_rules, Access.parse_access_rule.
-    intros H. apply andb_true_iff in H as [H Hd]. apply andb_true_iff in H as [Hb Ha].
-    apply negb_true_iff in Hb. rewrite Hb.
-    destruct (is_nil allow_opt) eqn:Ea; cbn [orb] in Ha.
-    - cbn [negb]. destruct (is_nil deny_opt) eqn:Ed; [reflexivity|]. cbn [orb] in Hd.
-      rewrite items_ok_eq in Hd. rewrite (parse_items_all_ok _ _ _ Hd). reflexivity.
-    - rewrite items_ok_eq in Ha. rewrite (parse_items_all_ok _ _ _ Ha). cbn [negb].
-      cbn [negb andb] in Hb. apply negb_false_iff in Hb. rewrite Hb. reflexivity.
+    intros H. rewrite (prefix_blocks_all_ok _ H), intended_blocks_eq.
+    pose proof (blocks_of_nonempty _ (split_byte_nonempty opt 44) H) as Hne.
+    destruct (blocks_of (split_byte opt 44)); [congruence | reflexivity].
   Qed.
 
-  (* fail-closed holds (with equality) on every well-formed rule text *)
+  (* ---- ProcessAccessRules, completely: on a well-formed text (at most one option, every
+          item parses) the map holds exactly the intended blocks; on every other text it is
+          the empty allow list of denyAll (1cbe751) ---- *)
+  Theorem process_access_rules_spec allow_opt deny_opt :
+    process_access_rules allow_opt deny_opt =
+      if rule_well_formed allow_opt deny_opt then
+        ({| r_allow := if is_nil allow_opt then None else Some (intended_blocks allow_opt);
+            r_deny := if is_nil deny_opt then None else Some (intended_blocks deny_opt) |}, true)
+      else (deny_all_rules, false).
+  Proof.
+    unfold Access.process_access_rules, Access.rule_well_formed, Access.parse_access_rule.
+    destruct (is_nil allow_opt) eqn:Ea, (is_nil deny_opt) eqn:Ed; cbn [negb andb orb].
+    - reflexivity.
+    - rewrite parse_items_spec, items_ok_eq.
+      destruct (all_ok (split_byte deny_opt 44)) eqn:Hd; cbn [negb]; [|reflexivity].
+      unfold add_blocks, no_rules. cbn [r_allow r_deny]. now rewrite (map_extend_none_ok _ Hd).
+    - rewrite parse_items_spec, items_ok_eq.
+      destruct (all_ok (split_byte allow_opt 44)) eqn:Ha; cbn [negb andb]; [|reflexivity].
+      unfold add_blocks, no_rules. cbn [r_allow r_deny]. now rewrite (map_extend_none_ok _ Ha).
+    - reflexivity.
+  Qed.
+
+  Theorem well_formed_rules allow_opt deny_opt :
+    rule_well_formed allow_opt deny_opt = true ->
+    process_access_rules allow_opt deny_opt =
+      ({| r_allow := if is_nil allow_opt then None else Some (intended_blocks allow_opt);
+          r_deny := if is_nil deny_opt then None else Some (intended_blocks deny_opt) |}, true).
+  Proof. intros H. now rewrite process_access_rules_spec, H. Qed.
+
+  Theorem unusable_rules_deny_all allow_opt deny_opt :
+    rule_well_formed allow_opt deny_opt = false ->
+    process_access_rules allow_opt deny_opt = (deny_all_rules, false).
+  Proof. intros H. now rewrite process_access_rules_spec, H. Qed.
+
+  (* on every well-formed rule text the decision IS the intended one *)
   Theorem fail_closed_on_domain allow_opt deny_opt ip :
-    rule_well_formed parse_ip parse_cidr allow_opt deny_opt = true ->
+    rule_well_formed allow_opt deny_opt = true ->
     deny_by_ip (target_rules allow_opt deny_opt) (Some ip) = negb (intended_admits allow_opt deny_opt ip).
   Proof.
     intros H. unfold Access.target_rules. rewrite (well_formed_rules _ _ H). cbn [fst].
-    unfold rule_well_formed in H. apply andb_true_iff in H as [H Hd]. apply andb_true_iff in H as [Hb Ha].
+    unfold Access.rule_well_formed in H. apply andb_true_iff in H as [H Hd]. apply andb_true_iff in H as [Hb Ha].
     unfold Access.intended_admits.
-    destruct (is_nil allow_opt) eqn:Ea; cbn [orb] in *.
-    - rewrite deny_by_ip_deny by reflexivity. cbn [r_deny andb].
-      destruct (is_nil deny_opt); cbn [orb]; [reflexivity | now rewrite negb_involutive].
-    - cbn [negb andb] in Hb. apply negb_true_iff, negb_false_iff in Hb. rewrite Hb. cbn [orb].
-      rewrite andb_true_r. rewrite deny_by_ip_allow; [reflexivity|]. cbn [r_allow].
-      rewrite intended_blocks_eq. apply blocks_of_nonempty; [apply split_byte_nonempty|].
-      now rewrite <- items_ok_eq.
+    destruct (is_nil allow_opt) eqn:Ea, (is_nil deny_opt) eqn:Ed; cbn [orb andb negb] in *; try discriminate.
+    - reflexivity.
+    - rewrite (deny_by_ip_deny _ (intended_blocks deny_opt)) by reflexivity. now rewrite negb_involutive.
+    - rewrite (deny_by_ip_allow _ (intended_blocks allow_opt)) by reflexivity. now rewrite andb_true_r.
   Qed.
 
-  (* an allow option alone fails closed whenever its FIRST item parses: a later bad item only
-     drops blocks (narrows); the finding region for allow-only texts is exactly "the parsed
-     allow list is empty" *)
-  Theorem allow_only_fail_closed allow_opt ip :
-    r_allow (target_rules allow_opt []) <> [] ->
+  (* ---- "a rule that cannot be parsed never widens access", for EVERY rule text ---- *)
+  (* whoever is admitted by the rules in force is admitted by the rules built from the
+     parsable items only ... *)
+  Theorem fail_closed allow_opt deny_opt ip :
+    deny_by_ip (target_rules allow_opt deny_opt) (Some ip) = false ->
+    intended_admits allow_opt deny_opt ip = true.
+  Proof.
+    destruct (rule_well_formed allow_opt deny_opt) eqn:W.
+    - rewrite (fail_closed_on_domain _ _ _ W). apply negb_false_iff.
+    - unfold Access.target_rules. rewrite (unusable_rules_deny_all _ _ W). cbn [fst].
+      rewrite empty_allow_denies_all by reflexivity. discriminate.
+  Qed.
+
+  (* ... and when the text has an unusable item (or gives both options) no address is admitted *)
+  Theorem unusable_rule_admits_nobody allow_opt deny_opt ip :
+    rule_well_formed allow_opt deny_opt = false ->
+    deny_by_ip (target_rules allow_opt deny_opt) (Some ip) = true.
+  Proof.
+    intros W. unfold Access.target_rules. rewrite (unusable_rules_deny_all _ _ W). cbn [fst].
+    now apply empty_allow_denies_all.
+  Qed.
+
+  Theorem fail_closed_every_text allow_opt deny_opt ip :
+    (deny_by_ip (target_rules allow_opt deny_opt) (Some ip) = false ->
+     intended_admits allow_opt deny_opt ip = true) /\
+    (rule_well_formed allow_opt deny_opt = false ->
+     deny_by_ip (target_rules allow_opt deny_opt) (Some ip) = true).
+  Proof. split; [apply fail_closed | apply unusable_rule_admits_nobody]. Qed.
+
+  (* corollary: an allow option alone *)
+  Corollary allow_only_fail_closed allow_opt ip :
     deny_by_ip (target_rules allow_opt []) (Some ip) = false ->
     intended_admits allow_opt [] ip = true.
-  Proof.
-    unfold Access.target_rules, Access.process_access_rules, Access.parse_access_rule.
-    cbn [is_nil negb andb]. rewrite andb_false_r.
-    destruct (is_nil allow_opt) eqn:Ea; [cbn; congruence|].
-    destruct (parse_items_prefix KAllow (split_byte allow_opt 44) no_rules) as (l & H1 & H2 & _).
-    destruct (parse_items KAllow (split_byte allow_opt 44) no_rules) as [r1 ok1].
-    cbn [fst] in H1. subst r1.
-    assert (E : fst (if negb ok1 then (add_blocks KAllow no_rules l, false)
-                     else (add_blocks KAllow no_rules l, true)) = add_blocks KAllow no_rules l)
-      by (destruct ok1; reflexivity).
-    rewrite E. cbn [add_blocks no_rules r_allow app]. intros Hne D.
-    apply allow_only_inside in D; [|exact Hne]. destruct D as (b & Hin & Hc). cbn [r_allow] in Hin.
-    unfold Access.intended_admits. rewrite Ea. cbn [is_nil orb]. rewrite andb_true_r.
-    apply existsb_exists. exists b. split; [|exact Hc]. rewrite intended_blocks_eq. now apply H2.
-  Qed.
+  Proof. apply fail_closed. Qed.
 End Parse.
 
 (* ================= refutations (witnesses run on the real code by the harness) ================= *)
@@ -511,35 +579,46 @@ Definition ex_parse_ip (s : str) : option ipaddr :=
 Definition ip_8888 : ipaddr := IP4 134744072.
 Definition ip_6666 : ipaddr := IP4 101058054.
 
-(* allow=ip:10.0.0.0/33 admits 8.8.8.8 (everyone); intended: nobody *)
+(* REPAIRED by 1cbe751 ("fix: a route whose access rules cannot be parsed is served without
+   any restriction").  The three refutations are about the code before that commit
+   ([target_rules_unrepaired]: an error return left the map empty or partially filled). *)
+(* allow=ip:10.0.0.0/33 admitted 8.8.8.8 (everyone); intended: nobody *)
 Theorem bad_rule_widens_refuted :
   exists parse_ip parse_cidr allow_opt deny_opt ip,
-    deny_by_ip (target_rules parse_ip parse_cidr allow_opt deny_opt) (Some ip) = false /\
+    deny_by_ip (target_rules_unrepaired parse_ip parse_cidr allow_opt deny_opt) (Some ip) = false /\
     intended_admits parse_ip parse_cidr allow_opt deny_opt ip = false.
 Proof.
   exists ex_parse_ip, ex_parse_cidr, (bs "ip:10.0.0.0/33"), [], ip_8888. split; vm_compute; reflexivity.
 Qed.
 
-(* deny=ip:bad,ip:6.6.6.6 admits 6.6.6.6: the bad first item disables the rest *)
+(* deny=ip:bad,ip:6.6.6.6 admitted 6.6.6.6: the bad first item disabled the rest *)
 Theorem bad_first_deny_item_refuted :
   exists parse_ip parse_cidr deny_opt ip,
-    deny_by_ip (target_rules parse_ip parse_cidr [] deny_opt) (Some ip) = false /\
+    deny_by_ip (target_rules_unrepaired parse_ip parse_cidr [] deny_opt) (Some ip) = false /\
     intended_admits parse_ip parse_cidr [] deny_opt ip = false.
 Proof.
   exists ex_parse_ip, ex_parse_cidr, (bs "ip:bad,ip:6.6.6.6"), ip_6666. split; vm_compute; reflexivity.
 Qed.
 
-(* allow=ip:10.0.0.0/8 together with deny=ip:6.6.6.6 admits 6.6.6.6: both are dropped *)
+(* allow=ip:10.0.0.0/8 together with deny=ip:6.6.6.6 admitted 6.6.6.6: both were dropped *)
 Theorem allow_and_deny_refuted :
   exists parse_ip parse_cidr allow_opt deny_opt ip,
     allow_opt <> [] /\ deny_opt <> [] /\
     items_ok parse_ip parse_cidr allow_opt = true /\ items_ok parse_ip parse_cidr deny_opt = true /\
-    deny_by_ip (target_rules parse_ip parse_cidr allow_opt deny_opt) (Some ip) = false /\
+    deny_by_ip (target_rules_unrepaired parse_ip parse_cidr allow_opt deny_opt) (Some ip) = false /\
     intended_admits parse_ip parse_cidr allow_opt deny_opt ip = false.
 Proof.
   exists ex_parse_ip, ex_parse_cidr, (bs "ip:10.0.0.0/8"), (bs "ip:6.6.6.6"), ip_6666.
   repeat split; try discriminate; vm_compute; reflexivity.
 Qed.
+
+(* the same three witnesses on the code as it is: the map is denyAll's and the address is denied *)
+Theorem unusable_rules_now_denied :
+  target_rules ex_parse_ip ex_parse_cidr (bs "ip:10.0.0.0/33") [] = deny_all_rules /\
+  deny_by_ip (target_rules ex_parse_ip ex_parse_cidr (bs "ip:10.0.0.0/33") []) (Some ip_8888) = true /\
+  deny_by_ip (target_rules ex_parse_ip ex_parse_cidr [] (bs "ip:bad,ip:6.6.6.6")) (Some ip_6666) = true /\
+  deny_by_ip (target_rules ex_parse_ip ex_parse_cidr (bs "ip:10.0.0.0/8") (bs "ip:6.6.6.6")) (Some ip_6666) = true.
+Proof. repeat split; vm_compute; reflexivity. Qed.
 
 (* "[fe80::1%eth0]:1234" passed allow=ip:10.0.0.0/8: ParseIP rejects the zone, nil is admitted *)
 Definition ex_split_host (s : str) : option str :=
@@ -549,9 +628,9 @@ Definition ex_addr_of (s : str) : option ipaddr :=
   if beq s (bs "fe80::1%eth0") then Some (IP16 fe80_1)  (* fe80::1 *)
   else ex_parse_ip s.
 Definition ex_allow_10 : rules :=
-  {| r_allow := [{| n_ip := IP4 167772160; n_ones := 8; n_m16 := false |}]; r_deny := [] |}.
+  {| r_allow := Some [{| n_ip := IP4 167772160; n_ones := 8; n_m16 := false |}]; r_deny := None |}.
 Definition ex_deny_6666 : rules :=
-  {| r_allow := []; r_deny := [{| n_ip := IP4 101058054; n_ones := 32; n_m16 := false |}] |}.
+  {| r_allow := None; r_deny := Some [{| n_ip := IP4 101058054; n_ones := 32; n_m16 := false |}] |}.
 
 (* REPAIRED by f5e2970 ("fix: a zone-scoped IPv6 peer passes every access rule"): the
    statement is about the code before that commit ([access_denied_http_zone_unrepaired],
@@ -714,14 +793,21 @@ Proof. repeat split; vm_compute; try reflexivity; discriminate. Qed.
 Example well_formed_nonvacuous :
   rule_well_formed ex_parse_ip ex_parse_cidr (bs "ip:10.0.0.0/8, IP:6.6.6.6") [] = true /\
   r_allow (target_rules ex_parse_ip ex_parse_cidr (bs "ip:10.0.0.0/8, IP:6.6.6.6") []) =
-    [ex_net_10; {| n_ip := IP4 101058054; n_ones := 32; n_m16 := false |}].
+    Some [ex_net_10; {| n_ip := IP4 101058054; n_ones := 32; n_m16 := false |}].
 Proof. split; vm_compute; reflexivity. Qed.
 
-(* a later bad item narrows: hypotheses of [allow_only_fail_closed] are met *)
-Example allow_later_bad_item_nonvacuous :
+(* [fail_closed] is not vacuous: a text with a usable first and an unusable second item; an
+   address inside the usable block would be admitted by the intended rules and by the code
+   before 1cbe751, and is denied now (nobody is admitted) *)
+Example fail_closed_nonvacuous :
   rule_well_formed ex_parse_ip ex_parse_cidr (bs "ip:10.0.0.0/8,ip:10.0.0.0/33") [] = false /\
-  r_allow (target_rules ex_parse_ip ex_parse_cidr (bs "ip:10.0.0.0/8,ip:10.0.0.0/33") []) = [ex_net_10].
-Proof. split; vm_compute; reflexivity. Qed.
+  target_rules ex_parse_ip ex_parse_cidr (bs "ip:10.0.0.0/8,ip:10.0.0.0/33") [] = deny_all_rules /\
+  intended_admits ex_parse_ip ex_parse_cidr (bs "ip:10.0.0.0/8,ip:10.0.0.0/33") [] (IP4 168364297) = true /\
+  deny_by_ip (target_rules ex_parse_ip ex_parse_cidr (bs "ip:10.0.0.0/8,ip:10.0.0.0/33") []) (Some (IP4 168364297)) = true /\
+  r_allow (target_rules_unrepaired ex_parse_ip ex_parse_cidr (bs "ip:10.0.0.0/8,ip:10.0.0.0/33") []) = Some [ex_net_10] /\
+  (* and the premise of [fail_closed] is met by a well-formed text *)
+  deny_by_ip (target_rules ex_parse_ip ex_parse_cidr (bs "ip:10.0.0.0/8, IP:6.6.6.6") []) (Some (IP4 168364297)) = false.
+Proof. repeat split; vm_compute; reflexivity. Qed.
 
 (* the gate theorems: a forwarded request exists, and each refusal exists *)
 Example gate_nonvacuous :
